@@ -38,6 +38,12 @@ class Gen6(ac.Gen):
 
     def setup_launch(self, vals, ind, cur):
         out = []
+        if self.carried and self.r.random() < 0.25:
+            # a conditional that yields one of the operands (a pure op with regions in the input chain)
+            q = self.fresh("q")
+            out += [f"{ind}{q} = scf.if {self.r.choice(['%c0', '%c1'])} -> (i32) {{", f"{ind}  scf.yield {self.r.choice(vals)} : i32",
+                    f"{ind}}} else {{", f"{ind}  scf.yield {self.r.choice(vals)} : i32", f"{ind}}}"]
+            vals = vals + [q, q, q]
         # a small chain of arithmetic feeding the setup
         for _ in range(self.r.randint(0, 2)):
             v = self.fresh()
